@@ -133,3 +133,22 @@ pub(crate) fn c08_from_file_reads_trailer() {
     kani::cover!(hint == Some(70), "over-guessed hint: header cut out of the first read");
     std::mem::forget(r); std::mem::forget(be); std::mem::forget(rec);
 }
+
+/// reference decoder standing in for PackHeader::from_binary (binrw) in the C05 harness: exactly two uncompressed
+/// entries `[type: 0 = data / 1 = tree][length: u32 LE][id: 32 bytes]`, offsets cumulative from 0
+pub(crate) fn stub_header_decode2(pack: &[u8]) -> PackFileResult<PackHeader> {
+    assert!(pack.len() == 74, "the header decoder was handed a region that is not the decrypted trailer");
+    let e0 = ref_entry(pack, 0, 0);
+    let e1 = ref_entry(pack, 37, e0.location.length);
+    Ok(PackHeader(vec![e0, e1]))
+}
+pub(crate) fn ref_entry(p: &[u8], at: usize, offset: u32) -> IndexBlob {
+    let mut id = [0u8; 32];
+    let mut k = 0;
+    while k < 32 { id[k] = p[at + 5 + k]; k += 1; }
+    IndexBlob {
+        id: BlobId::from(crate::id::Id::new(id)),
+        tpe: if p[at] == 0 { BlobType::Data } else { BlobType::Tree },
+        location: BlobLocation { offset, length: u32::from_le_bytes([p[at + 1], p[at + 2], p[at + 3], p[at + 4]]), uncompressed_length: None },
+    }
+}
